@@ -26,7 +26,7 @@ CONFIG = dict(
     min_nontrivial={"quick": 1500, "thorough": 20000},
     nshards={"quick": 8, "thorough": 16},
     timeout={"quick": 600, "thorough": 3600},
-    required_counters=("deliveries_checked", "safety_checks", "loader_reports_compared"),
+    required_counters=("deliveries_checked", "report_files_checked", "safety_checks", "loader_reports_compared"),
 )
 
 MODULES = {
@@ -37,11 +37,14 @@ MODULES = {
                "importlib", "types", "copyreg", "_codecs"],
     "nonstd": ["vp_sink", "numpy", "torch", "torch.storage", "numpy.testing._private.utils", "foo", "foo.bar",
                "__main__", "numpy.core.multiarray", "torch._utils", "evalmod", "pip._internal"],
+    # names outside ASCII (they reach finding messages, triggers and the report): Latin-1, Cyrillic, astral, a lone surrogate
+    "unicode": ["mod\u00e8le", "\u043f\u0430\u043a\u0435\u0442", "pkg\ud800name", "numpy.\u00e9", "os.\U0001f600"],
 }
 ATTRS = ["{}", "{0}", "{name}", "{trigger}", "%s", "%(a)s", "{severity.name}", "$x", "a{b}c",
          "eval", "exec", "compile", "open", "load", "loads", "getitem", "attrgetter", "itemgetter",
          "methodcaller", "runstring", "_load_from_bytes", "system", "OrderedDict", "x", "__import__",
-         "getattr", "_run_code", "execWrapper", "dtype", "Evil", "_reconstruct", "evaluate", "evalx"]
+         "getattr", "_run_code", "execWrapper", "dtype", "Evil", "_reconstruct", "evaluate", "evalx",
+         "\u00e9val", "lo\ud800ad", "\u4e2d"]
 USES = ["import_result", "import_pop", "import_in_tuple", "call_REDUCE", "call_OBJ", "call_INST", "call_NEWOBJ",
         "call_NEWOBJ_EX", "call_REDUCE_pop", "call_twice", "stack_global_result", "stack_global_call"]
 
@@ -118,6 +121,28 @@ def check(ctx, f, analysis, loader, UnsafeFileError, label, data):
         agg.violation(f"report-not-json:{type(e).__name__}", f"to_dict() is not JSON-serialisable: {str(e)[:120]}", w)
         return
     agg.hist("severities", res.severity.name)
+    # the optional report file (the CLI always asks for one): same verdict, nothing raised, the file holds the report
+    import os
+    rpath = os.path.join(ctx.scratch, "c19_report.json")
+    try:
+        if os.path.exists(rpath):
+            os.remove(rpath)
+        res2 = analysis.check_safety(f.Pickled.load(data), json_output_path=rpath)
+        with open(rpath, "rb") as fh:
+            raw = fh.read()
+        doc = json.loads(raw.decode("utf-8", "surrogatepass") if b"\\u" in raw or raw.isascii() else raw.decode("utf-8", "surrogatepass"))
+        agg.count("report_files_checked")
+        if res2.severity != res.severity or json.dumps(doc, sort_keys=True) != json.dumps(d, sort_keys=True):
+            agg.violation("report-file-differs", "the report written to json_output_path differs from to_dict()",
+                          dict(w, file=raw[:300].decode("latin-1"), to_dict=js[:300]))
+    except RecursionError:
+        pass
+    except Exception as e:
+        agg.violation(f"analysis-raises:report-file:{type(e).__name__}",
+                      f"check_safety(json_output_path=...) raises {type(e).__name__}: {str(e)[:120]}", w)
+    finally:
+        if os.path.exists(rpath):
+            os.remove(rpath)
     if label.startswith(("directed", "perop", "grid")) or int(ch[:2], 16) % 8 == 0:
         check_deliveries(ctx, f, analysis, loader, UnsafeFileError, label, data, w)
     # the same report through the checked loader (threshold LIKELY_SAFE); nothing is unpickled
